@@ -598,6 +598,19 @@ func runFx(c SlotCase) SlotOut {
 	})
 }
 
+func runFxSeq(c SlotSeqCase) SlotSeqOut {
+	return runSlotSeq(c, func(i int, parent context.Context, work func(ctx context.Context) (int64, int64)) (int64, int64) {
+		err := fx.DoWithTimeout(func() error {
+			_, e := work(parent)
+			if e == 0 {
+				return nil
+			}
+			return fmt.Errorf("e%d", e)
+		}, time.Duration(c.DurNs), fx.WithContext(parent))
+		return 0, errID(err)
+	})
+}
+
 func main() {
 	logx.Disable()
 	var raws []json.RawMessage
@@ -629,6 +642,12 @@ func main() {
 				hx.Fatal("case: %v", err)
 			}
 			w.Put(runSeq(c))
+		case "fxseq":
+			var c SlotSeqCase
+			if err := json.Unmarshal(raw, &c); err != nil {
+				hx.Fatal("case: %v", err)
+			}
+			w.Put(runFxSeq(c))
 		case "fx":
 			var c SlotCase
 			if err := json.Unmarshal(raw, &c); err != nil {
